@@ -40,7 +40,7 @@ fn main() {
         "fileio" => fqv::scen_file::fileio(&mut sink, seed, thorough, &arg(&args, "--replay-in", "")),
         "conv" => fqv::scen_render::conv(&mut sink, seed, thorough),
         "raster" => fqv::scen_render::raster(&mut sink, seed, thorough),
-        #[cfg(feature = "hooks")]
+        #[cfg(any(feature = "hooks", feature = "wasmonly"))]
         "wasm" => fqv::scen_wasm::wasm(&mut sink, seed, thorough, &arg(&args, "--alphabet", ""), &arg(&args, "--replay-in", "")),
         #[cfg(feature = "hooks")]
         "versionget" => scen_hook::versionget(&mut sink),
